@@ -135,7 +135,8 @@ class SYS(Prop):
             "time; each is followed by a COUNT sentinel with a unique id whose merged reply closes the window; before a REQ the "
             "database is asked the same filters directly (the SQLite child's answer, taken as given, checked against the "
             "relational model); after an EVENT the harness waits for the background inserter (its log line per batch, the "
-            "two-entry LRU predicted) and lists the cache.  The interleaving of the three children is the Go scheduler's; "
+            "two-entry LRU predicted) and lists the cache; a session ends with a REQ/EVENT pair that flushes the router "
+            "child's FIFO queue (the harness waits for that event's live copy).  The interleaving of the three children is the Go scheduler's; "
             "the judge searches for a schedule of the composed model that yields the observed sequence (late live events "
             "may arrive in a later window) and, independently, checks the SYS_ statements on the observation.  "
             "Non-trivial: a session with a rejected (duplicate) OK, a REQ answered with at least one event, and a live "
@@ -149,7 +150,7 @@ class SYS(Prop):
         "SQLite, mattn/go-sqlite3, database/sql, goqu: as C06/C16 (relational model validated by correspondence); the SQLite "
         "child's answer to a REQ is observed by a second identical query on the quiet database",
         "quiescence protocol of harness/cmd/sys/sys.go: COUNT sentinel per message, inserter log counting with a mirrored "
-        "two-entry LRU, 4 ms wait for stragglers at the end of a session",
+        "two-entry LRU, a marker event that flushes the router child's queue at the end of a session",
     ]
     assumptions = [
         "one connection; client messages are fed one at a time (pipelined requests are covered by the theorems, which "
